@@ -85,7 +85,15 @@ def ResolverOK (s : SchemaD) (rv : Bool) (t : TypeD) (f : FieldD) : Prop :=
 /-! ### per-rule predicates -/
 
 /-- a declared default conforms to the type of its position, as far as the rule checks (`defaultBad`: no null under
-    non-null, lists under list types, 32-bit integers under Int, own values under enums, mappings under input objects) -/
+    non-null, lists under list types, 32-bit integers under Int, own values under enums, mappings under input objects).
+    DEFINITIONAL: this clause is stated with the MODEL's own function `SchemaValid.defaultBad` (the transcription of
+    `_default_value_error`), so the corresponding conjunct of `validate_iff` / `violation_iff` says "the error is
+    reported ⇔ `defaultBad` says so" - it ties the validator's control flow (where the check is made, for which
+    arguments, under which guard) to the function, NOT the function to an independent notion of conformance. What
+    `defaultBad` computes is compared with the real `_default_value_error` by the correspondence (labelled injections
+    `bad_default_*` at every position). The INDEPENDENT meaning is given in Props/C13_default.lean: the declarative
+    relation `Conforms s ty v` and `defaultOK_iff_conforms` (`DefaultOK` ⇔ the default conforms to its type, for
+    values within the 64 levels the model looks at; `default_error_sound` without any bound). -/
 def DefaultOK (s : SchemaD) (a : ArgD) : Prop := a.hasDefault = true → defaultBad s defaultFuel a.type a.default = false
 
 /-- arguments: well-formed unique names, input types, conforming defaults -/
@@ -113,6 +121,11 @@ def InterfacesOK (s : SchemaD) (t : TypeD) : Prop :=
 def UnionOK (s : SchemaD) (t : TypeD) : Prop :=
   t.members ≠ [] ∧ (∀ m ∈ t.members, kindOf s m = some .object) ∧ t.members.Nodup
 
+/-- enum types: at least one value, well-formed names, no `None` internal value. NOT part of the rule, as in the code:
+    uniqueness of the value names - `validate_enum_values` does not test it; `EnumType._set_values` raises
+    `ValueError("Duplicate enum value ...")` at CONSTRUCTION, so a live schema never holds a duplicate (the dump of a live
+    schema has unique value names by construction; the model neither asks nor uses it). Named clause:
+    `Props.C13.ConstructionInvariants` / `ValidSchemaSpec` / `enum_uniqueness_not_implemented` (Props/C13_clauses.lean). -/
 def EnumOK (t : TypeD) : Prop :=
   t.values ≠ [] ∧ ∀ v ∈ t.values, ValidName v.name ∧ isNone v.value = false
 
@@ -139,7 +152,11 @@ def RootsOK (s : SchemaD) : Prop :=
 def DirectivesOK (s : SchemaD) : Prop :=
   ∀ d ∈ s.directives, ValidName d.name ∧ ArgsOK s d.args
 
-/-- the schema satisfies every implemented type-system rule -/
+/-- the schema satisfies every IMPLEMENTED type-system rule. Uniqueness of TYPE names and of DIRECTIVE names is not
+    among them, as in the code: `schema.types` and `schema.directives` are dicts keyed by name (a second definition of
+    a name replaces or is refused at construction: `Schema.__init__` / `build_schema`, C11), `validate_schema` has no
+    such test; theorems that need unique type names take it as a hypothesis (`perm_types`, `perm_deep`: `Nodup`); the
+    clauses are named in Props/C13_clauses.lean (`ConstructionInvariants`, `validate_iff_spec`). -/
 def ValidSchema (s : SchemaD) (rv : Bool := true) : Prop :=
   RootsOK s ∧ (∀ t ∈ s.types, TypeOK s rv t) ∧ DirectivesOK s
 
